@@ -158,6 +158,7 @@ static void write_crystal_file(FILE *f, const m_crystal *c, int corrupt, xv_rng 
   if (corrupt == 4) fprintf(f, "#UCELL 1 2 3 90 90 90\n");                    /* two UCELL lines */
   fprintf(f, "#USYSTEM generated\n#N 5\n#L AtomicNumber Fraction X Y Z\n");
   for (k = 0; k < (corrupt == 7 ? 0 : c->n_atom); k++) {
+    if (xv_below(r, 9) == 0) { static const char *ws[] = { "\n", " \n", "\t\n", "   \t \n", "\n\n" }; fputs(ws[xv_below(r, 5)], f); }   /* empty and blank-only lines inside the atom block (hand-edited files): white space */
     if (corrupt == 5 && k == c->n_atom / 2) { fprintf(f, "%d %.17g xx %.17g\n", c->atom[k].Zatom, c->atom[k].fraction, c->atom[k].y); continue; }   /* unparsable atom line */
     fprintf(f, "%d %.17g %.17g %.17g %.17g\n", c->atom[k].Zatom, c->atom[k].fraction, c->atom[k].x, c->atom[k].y, c->atom[k].z);
   }
